@@ -1,6 +1,7 @@
 """C11 -- derived data stays coherent; queries do not move objects
 (S1, S2, S3, P1, U1)."""
 from ..rules import misc_rules as MI
+from ..rules import degree_rules as DG
 from ..rules import numpy_rules as NP
 from ..rules import dtype_rules as DT
 from ..rules import proj_rules as P
@@ -27,6 +28,10 @@ def run(ctx):
     ctx.do(DT.rule_lk4)
     ctx.do(MI.rule_homdiv1)
     ctx.do(P.rule_s1)
+    # the stored tangent vector is homogeneous of degree 0 in the base point
+    ctx.do(DG.rule_hd1)
+    ctx.do(DG.rule_hd1_attr)
+    ctx.do(SH.rule_ax1, ["geometry_tools/hyperbolic.py", "geometry_tools/projective.py"])
     ctx.do(P.rule_dual1)
     ctx.do(MI.rule_s1u)
     ctx.do(P.rule_s2)
